@@ -39,9 +39,15 @@ func (e *eenv) bootView(n *simnode.Node) (gen string, gid []byte, vers []int32, 
 			gid = ownDigest(gb.Header, "")
 			gen += " genesis-chainid=" + fmt.Sprintf("%q", gb.Header.ChainID)
 		}
+		// the chain ids are asked for first and looked at afterwards, as a caller that keeps the id it was
+		// given (a handshake in progress, a long-lived handshaker) does: an id handed out for one
+		// height must not change when another height is asked for
+		var held []*types.ChainID
 		for _, h := range e.probeHs {
 			vers = append(vers, n.Cfg.Hardfork.Version(h))
-			c := n.CS.ChainID(h)
+			held = append(held, n.CS.ChainID(h))
+		}
+		for _, c := range held {
 			if c == nil {
 				cidv = append(cidv, -999)
 				continue
